@@ -14,6 +14,7 @@
 From BP Require Import Base.Prelude Model.Types Model.Varint Model.Object Model.Decode Model.WellFormed Model.Canon.
 From BP Require Import Spec.Varint Spec.Wire.
 From BP Require Import Model.Encode Proofs.C02Abs Proofs.C02WireP Proofs.C02FinalP Proofs.C02EncP.
+From BP Require Import Model.C01Def Proofs.C02LegalMain Proofs.C02LegalFaith3.
 
 (* ---- framing layer: the relation and the function of the specification agree ---- *)
 Theorem C02_wire_ok_parse : forall bs rs, wire_ok bs rs -> parse_wire bs = Some rs.
@@ -59,13 +60,69 @@ Theorem C02_decode_refines_rel : forall sc c bs rs a,
 Proof. exact decode_refines_rel. Qed.
 Print Assumptions C02_decode_refines_rel.
 
-(* ---- encoder side (C02_encode_legal of the design), leaf layer only: the record _serialize_single writes for an
-        in-range scalar is a legal record (canonical tag / length of at most five bytes, canonical value varint)
-        and denotes that value under the specification.
-   PARTIAL: the message-level statement `in_range m -> exists rs, parse_wire (enc_obj m) = Some rs /\ sem rs = abs m`
-   is not proved (it is sampled on every run: harness/props/c02.py compares sem (enc_obj m) with abs_obj m inside Coq
-   for every generated message that meets `enc_faithful`).  Missing: the walk over fields, containers, nested
-   messages and float32 (whose rounding is modelled, not verified). ---- *)
+(* ---- encoder side: every message betterproto writes is a LEGAL proto3 serialisation (record grammar of the
+        independent specification: canonical tags and lengths of at most five bytes, canonical value varints) whose
+        denotation under the specification is the message itself, and which lies inside [supported] - so
+        C02_decode_refines applies to it and the reference reads it as that message.
+   Hypotheses (the ones of C01_roundtrip, all decidable, all evaluated on every generated case by the checks):
+     c01_schema_ok sc  = wf_schema + the first classes ARE the bundled ones + a map's Entry class is annotated like the map;
+     c01_value_ok sc m = in_range (ints in the declared range, valid UTF-8, float32 fields float32-representable or NaN,
+                         datetimes / timedeltas in range) + recursively: a oneof member other than the selected one holds
+                         PLACEHOLDER, _group_current names members of its own group, no unknown bytes, dict keys distinct;
+     Zlength bs < 2^35 : the record grammar allows length prefixes of at most five bytes ([tag_max]), i.e. payloads below
+                         2^35 bytes (real implementations stop at 2 GiB; no Python object gets near either).
+   The denotation is stated as abs_obj (norm_obj m): [norm_obj] (Model/C01Def.v) is the closed form of the decoded object
+   (C01_roundtrip: parse (enc_obj m) = norm_obj m), i.e. m with float32 fields rounded to float32, values equal to their
+   default dropped and _serialized_on_wire raised - what the bytes can say about m.
+   Covers nested and recursive messages, packed and unpacked repeated fields, maps (entries without unknown fields), oneofs
+   (one member per group, the selected member written even when default), proto3 optional, wrappers, Timestamp / Duration
+   (exact (seconds, nanos) pairs), float32 (four bytes whatever the rounding), 32-bit varints (never wider than 32 bits),
+   a singular message field written at most once. ---- *)
+Theorem C02_encode_legal : forall sc m,
+  c01_schema_ok sc = true -> c01_value_ok sc m = true ->
+  exists bs, enc_obj sc m = Ok bs /\
+    (Zlength bs < 2 ^ 35 ->
+     exists rs a, parse_wire bs = Some rs /\
+       sem (S (length bs)) sc (ocls m) rs = Some a /\ a = abs_obj sc (norm_obj sc m) /\
+       supported (S (length bs)) sc (ocls m) rs = true).
+Proof. exact c02_encode_legal. Qed.
+Print Assumptions C02_encode_legal.
+
+(* the same in relational form, at every nesting depth the byte string can need *)
+Theorem C02_encode_legal_rel : forall sc m bs,
+  c01_schema_ok sc = true -> c01_value_ok sc m = true -> enc_obj sc m = Ok bs -> Zlength bs < 2 ^ 35 ->
+  exists rs, wire_ok bs rs /\
+    forall n, (length bs < n)%nat ->
+      sem n sc (ocls m) rs = Some (abs_obj sc (norm_obj sc m)) /\ supported n sc (ocls m) rs = true.
+Proof. exact c02_encode_legal_rel. Qed.
+Print Assumptions C02_encode_legal_rel.
+
+(* ---- ... and that denotation is the message ITSELF when the object state holds no more than its bytes can say:
+        [enc_faithful] (Proofs/C02Abs.v, decidable, evaluated on every generated case) = in_range + recursively: unknown
+        bytes parse, no -0.0 in a float/double field without presence or inside a wrapper (it equals the default and is
+        skipped), float32 fields hold float32 values (anything else is rounded on the wire), a plain Timestamp/Duration
+        field is not at the epoch / zero (datetime has no presence), a plain sub-message with non-default content has
+        _serialized_on_wire up (K12 of C06), dict keys unique.  Then abs_obj (norm_obj m) = abs_obj m. ---- *)
+Theorem C02_decoded_denotes_message : forall sc m,
+  c01_schema_ok sc = true -> c01_value_ok sc m = true -> enc_faithful sc m = true ->
+  abs_obj sc (norm_obj sc m) = abs_obj sc m.
+Proof. exact c02_norm_abs. Qed.
+Print Assumptions C02_decoded_denotes_message.
+
+(* C02_encode_legal of the design: wire_ok (enc m) rs /\ sem rs = abs m *)
+Theorem C02_encode_denotes : forall sc m,
+  c01_schema_ok sc = true -> c01_value_ok sc m = true -> enc_faithful sc m = true ->
+  exists bs, enc_obj sc m = Ok bs /\
+    (Zlength bs < 2 ^ 35 ->
+     exists rs, parse_wire bs = Some rs /\
+       sem (S (length bs)) sc (ocls m) rs = Some (abs_obj sc m) /\
+       supported (S (length bs)) sc (ocls m) rs = true).
+Proof. exact c02_encode_denotes. Qed.
+Print Assumptions C02_encode_denotes.
+
+(* ---- the leaf layer of the above on its own (kept from before the message-level theorem was proved; subsumed by it
+        for fields of a message, but stated for any field number and value on its own): the record _serialize_single
+        writes for an in-range scalar is a legal record and denotes that value.  float32 is covered by C02_encode_legal. ---- *)
 Theorem C02_encode_scalar_legal_partial : forall msg num t v se bs,
   1 <= num < 2 ^ 29 -> scalar_in_range t v = true -> t <> TFloat ->
   (forall s, v = PStr s \/ v = PBytes s -> Zlength s < 2 ^ 31) ->
@@ -117,6 +174,52 @@ Example C02_encode_scalar_nonvacuous :
   serialize_with no_msg 16 TSInt32 (PInt (-3)) false None = Ok [x80; x01; x05] /\
   scalar_in_range TSInt32 (PInt (-3)) = true /\
   parse_wire [x80; x01; x05] = Some [(16, Varint 5)] /\ scalar_of TSInt32 (Varint 5) = Some (AInt (-3)).
+Proof. vm_compute. repeat split. Qed.
+
+(* a message that uses every field of ex_sc: a = 5; r = [1,-2] (packed); oneof: n = 7 selected, s unselected;
+   m = {"k": 9}; u = {a = 1}; e = -1; w = 3 (wrapper); t = 1 s *)
+Definition ex_inner : obj :=
+  Obj 11 [PInt 1; PPlaceholder; PPlaceholder; PPlaceholder; PPlaceholder; PPlaceholder; PPlaceholder; PPlaceholder; PPlaceholder]
+      true [] [None].
+Definition ex_msg : obj :=
+  Obj 11 [PInt 5; PList [PInt 1; PInt (-2)]; PPlaceholder; PInt 7; PDict [(PStr [x6b], PInt 9)]; PMsg ex_inner;
+          PInt (-1); PInt 3; PDatetime 1000000]
+      true [] [Some 3%nat].
+Example C02_encode_legal_nonvacuous :
+  c01_schema_ok ex_sc = true /\ c01_value_ok ex_sc ex_msg = true /\
+  match enc_obj ex_sc ex_msg with
+  | Ok bs =>
+      (Zlength bs <? 2 ^ 35) = true /\ (40 <? length bs)%nat = true /\
+      match parse_wire bs with
+      | Some rs =>
+          length rs = 8%nat /\
+          sem (S (length bs)) ex_sc 11 rs = Some (abs_obj ex_sc (norm_obj ex_sc ex_msg)) /\
+          supported (S (length bs)) ex_sc 11 rs = true
+      | None => False
+      end
+  | Err _ => False
+  end.
+Proof. vm_compute. repeat split. Qed.
+
+(* enc_faithful is needed for "the message itself": -0.0 in a double field without presence equals the default, is
+   skipped by the encoder and comes back as +0.0 (a note of C16, not a finding: the two are equal under ==) *)
+Definition nz_sc : schema := mkS (builtin_classes ++ [mkC [mkF [x64] 1 TDouble None None None false (HPlain PyFloat) 0] 0]) [].
+Definition nz_msg : obj := Obj 11 [PFloat 9223372036854775808] true [] [].
+Theorem C02_encode_denotes_unfaithful_refuted :
+  exists sc m, c01_schema_ok sc = true /\ c01_value_ok sc m = true /\ enc_faithful sc m = false /\
+    cv_eqb (cv_of_aval (abs_obj sc (norm_obj sc m))) (cv_of_aval (abs_obj sc m)) = false.
+Proof. exists nz_sc, nz_msg. vm_compute. repeat split. Qed.
+Print Assumptions C02_encode_denotes_unfaithful_refuted.
+
+Example C02_encode_denotes_nonvacuous :
+  enc_faithful ex_sc ex_msg = true /\
+  match enc_obj ex_sc ex_msg with
+  | Ok bs => match parse_wire bs with
+             | Some rs => sem (S (length bs)) ex_sc 11 rs = Some (abs_obj ex_sc ex_msg)
+             | None => False
+             end
+  | Err _ => False
+  end.
 Proof. vm_compute. repeat split. Qed.
 
 (* The scope limits are real: without [supported] the statement fails on the current tree.
